@@ -33,8 +33,40 @@ STR_NAMES = {'var_exit_message'}
 class Ex:
     """Typed expression translator (num / Z / bool / str), fail closed."""
 
-    def __init__(self, path):
+    def __init__(self, path, funcs=None):
         self.path = path
+        self.funcs = funcs or {}
+
+    def inline(self, node):
+        """Inline a call of a module-level pure helper `def f(a, b, ...): return <expr>` (a refactoring
+        such as `_converged(l2, l2_refe, tol)`).  Every parameter must be passed EXPLICITLY: a parameter
+        left to its default (e.g. a tolerance defaulting to 1e-6 instead of var.tol) fails closed."""
+        fn = self.funcs[node.func.id]
+        body = [st for st in fn.body
+                if not (isinstance(st, ast.Expr) and isinstance(st.value, ast.Constant))]
+        if len(body) != 1 or not isinstance(body[0], ast.Return) or body[0].value is None \
+                or fn.args.vararg or fn.args.kwarg or fn.args.kwonlyargs:
+            self.bad(node, f"helper {fn.name}() is not a single `return <expression>`")
+        params = [a.arg for a in fn.args.args]
+        bound = {}
+        if len(node.args) > len(params) or any(isinstance(a, ast.Starred) for a in node.args):
+            self.bad(node, f"call of helper {fn.name}(): arguments")
+        for name, arg in zip(params, node.args):
+            bound[name] = arg
+        for kw in node.keywords:
+            if kw.arg is None or kw.arg not in params or kw.arg in bound:
+                self.bad(node, f"call of helper {fn.name}(): keyword {kw.arg}")
+            bound[kw.arg] = kw.value
+        missing = [q for q in params if q not in bound]
+        if missing:
+            self.bad(node, f"call {ast.unparse(node)} leaves parameter(s) {missing} of helper {fn.name}() to their "
+                           f"defaults -- the decision no longer uses the caller's value (e.g. var.tol)")
+
+        class Sub(ast.NodeTransformer):
+            def visit_Name(self, n):
+                return bound[n.id] if n.id in bound else n
+        import copy
+        return Sub().visit(copy.deepcopy(body[0].value))
 
     def bad(self, node, what):
         raise Untranslatable(self.path, getattr(node, 'lineno', 0), what)
@@ -87,6 +119,8 @@ class Ex:
             if 'num' in (ta, tb):
                 return f"(mul {self.to_num(a, ta, node)} {self.to_num(b, tb, node)})", 'num'
             self.bad(node, "product outside the numeric type")
+        if isinstance(node, ast.Call) and isinstance(node.func, ast.Name) and node.func.id in self.funcs:
+            return self.expr(self.inline(node))
         if isinstance(node, ast.Call) and ast.unparse(node.func) == 'np.isfinite' \
                 and len(node.args) == 1 and not node.keywords:
             a, ta = self.expr(node.args[0])
@@ -228,7 +262,7 @@ def generate(repo=None, out_dir=None):
     src = open(path).read()
     tree = ast.parse(src)
     funcs = {n.name: n for n in tree.body if isinstance(n, ast.FunctionDef)}
-    ex = Ex(path)
+    ex = Ex(path, funcs)
 
     def bad(node, what):
         raise Untranslatable(path, getattr(node, 'lineno', 0), what)
